@@ -355,7 +355,7 @@ def run(ctx):
     finally:
         shutil.rmtree(tmpdir, ignore_errors=True)
     # targets and the instantiation property given as prefixed names are expanded by unprefixize_uri_if_possible (regenerated, Props/GenStrUnprefix)
-    base.fragment_s_tie(ctx, dis, stats, ['unprefixize_uri_if_possible', 'unprefixize_uri_mandatory'])
+    base.fragment_s_tie(ctx, dis, stats, ['unprefixize_uri_if_possible', 'unprefixize_uri_mandatory', 'label_is_a_prefixed_uri', 'label_parse_prefixed_label', 'parse_shape_map_label'])
     return base.std_result(ctx, cases, viol, dis, base.known_lines(kf, reproduced), stats, nontriv, [],
                            "class targets: random subsets of classes in three spellings (full, <bracketed>, prefixed) x instantiation property "
                            "in {rdf:type, custom, P31-like}; shape maps: 1-3 items from a grammar of selectors (node full/prefixed, ghost node, "
